@@ -66,6 +66,11 @@ def directed_inputs(tier):
     sizes = (12, 16, 24, 40) if tier == 'quick' else (4, 8, 12, 16, 20, 24, 28, 32, 36, 40)
     kinds = (5, 8, 2, 77) if tier == 'quick' else (2, 3, 4, 5, 8, 0, 77)
     for n in sizes:
+        # the kind byte alone as the very last byte of the option area
+        for k in (2, 3, 4, 5, 8, 77):
+            t = tcp([1] * (n - 1) + [k])
+            v4 = [0x45, 0, (20 + len(t)) >> 8, (20 + len(t)) & 255, 0, 1, 0x40, 0, 64, 6, 0, 0, 10, 0, 0, 1, 10, 0, 0, 2]
+            out.append({'bytes': eth + [8, 0] + v4 + t, 'plan': [['eth', 0, 0], ['ether', 0x0800, 14], ['ip', 0, 14], ['ipv4', 0, 14]]})
         for k in kinds:
             for ln in range(0, n + 3):
                 room = min(max(ln, 2), n)
